@@ -46,6 +46,15 @@ CHECKS = {
                      "target, no `do` record after a non-zero `done` within a process, contents after exit 0.",
                 note="Serial (-j1) enumeration is complete for this world and list length <=3; other graph shapes are covered only through C01/C02's fail world. "
                      "Parallel interleavings are explored by the E2 scenarios."),
+    "C09": dict(engine="E2", category="model_checking", design_ref="DESIGN.md §4 C09, appendix A",
+                technique="stateless model checking of the real process tree under a controlled scheduler, iterative deviation bounding",
+                text="Every schedule with <= b deviations (quick b=1, thorough b=2) from the default policy is executed on the real binary, one process running "
+                     "at a time between feature-guarded gates (event-loop wake-ups with the exact ready set, token/cheat pipe reads and writes, lock try/wait/unlock, "
+                     "fork hand-overs, select! order, script gates). Scenarios: sub-redo with three children plus a sibling job at -j2/-j3, two top-level invocations on "
+                     "one target, the same target under two spellings, two sub-redos wanting each other's targets, diamond/fan at -j2/-j3, a failing fan. Oracle on every "
+                     "execution: no panic / exit 101, no deadlock, no livelock, termination, exit 0 when all scripts succeed.",
+                note="Interleavings inside an SQLite immediate transaction and inside the kernel are not distinguished; time in the jobserver is virtual; at most 2 "
+                     "top-level invocations and the listed graphs; schedules beyond the deviation bound are not covered."),
     "C13": dict(engine="E4 + single-step real-binary enumeration", category="exploration", design_ref="DESIGN.md §4 C13",
                 technique="exhaustive enumeration of target paths x all 2^k placements of candidate scripts, independent reference of the documented search order",
                 text="E4: for every target path of a component grammar (5 directory shapes x 9 name shapes incl. leading dots, double dots, spaces, unicode; "
